@@ -153,7 +153,7 @@ impl Disk {
     self.execute_locked_write(inner_lock_ref, dest_file_path.clone(), version, || { $body:any })
 //@with
     fn remove_the_key(disk: &mut Disk, dest_file_path: &PathBuf, lazy: bool) -> Result<(), Error> { $body }
-//@rw R5
+//@rw R5 ?
     dest_file_path.is_file()
 //@with
     disk.is_file(dest_file_path)
@@ -182,6 +182,21 @@ impl Disk {
     dir_file.sync_all()?;
 //@with
 
+//@end
+// every removal goes through the key's locked section, whatever the state of the key: that is where its version is recorded, so that a write issued BEFORE it and completing after it is dropped as stale instead of resurrecting the key (execute_locked_write: proved above)
+//@extract lightning-persister/src/fs_store/common.rs :: impl FilesystemStoreInner :: fn remove_version
+//@cfg target_os="windows"=false
+//@slice R15
+    { $pre:any self.execute_locked_write(inner_lock_ref, dest_file_path.clone(), version, || {
+//@with
+    fn statements_in_front_of_the_locked_section(disk: &mut Disk, dest_file_path: &PathBuf, lazy: bool, version: u64, reached_the_locked_section: &mut bool) -> Result<(), Error> { $pre *reached_the_locked_section = true; Ok(()) }
+//@rw R5 ?
+    dest_file_path.is_file()
+//@with
+    disk.is_file(dest_file_path)
+//@ret r
+//@ensures P C19 a-removal-always-records-its-version-under-the-keys-lock-there-is-no-exit-in-front-of-the-locked-section
+    *final(reached_the_locked_section), final(disk).ops@ == old(disk).ops@,
 //@end
 }
 }
